@@ -62,7 +62,7 @@ func firstN(b []byte, n int) []byte {
 func TestCheck(t *testing.T) {
 	r := vf.Start(t, "C02", vf.Exploration)
 	defer r.Finish()
-	r.SetRule("creation tuples (key, context, hash type, data) from a seeded pool x contexts (empty, unicode, NUL, pairs that differ only by moving bytes across the ' - SIGN - ' separator) x 3 hash types x data (empty..8 KiB); each signature is presented under the same tuple and under tuples that differ in exactly one component (other key, other context, hash_type field set to every other value incl. 0 and out-of-enum, other data incl. the digest itself / one flipped bit / prefix / extension) and in several; arbitrary signature byte strings (0,1,63,64,65 bytes, every single byte flipped); hostile signatures made by the reference signer for unsupported hash types; Signature objects with unsupported types / empty sig / unparsable or foreign embedded keys through Validate. Oracle: VerifyWithPublic == (true,nil) <=> presented tuple == creation tuple, cross-checked by an independent verification of the documented sign body with crypto/ed25519 (a verdict needs both opinions); NewSignature output must be byte-identical to the reference signer's (Ed25519 is deterministic); nothing verifies with hash type 0 / out-of-enum or empty sig_data; Validate rejects out-of-enum hash types, empty sig_data and embedded keys the reference key decoder calls invalid. Non-trivial = the creation succeeded and the same-tuple presentation verified; distinct = distinct (creation tuple, presented tuple / object)")
+	r.SetRule("creation tuples (key, context, hash type, data) from a seeded pool x contexts (empty, unicode, NUL, pairs that differ only by moving bytes across the ' - SIGN - ' separator) x 3 hash types x data (empty..8 KiB); each signature is presented under the same tuple and under tuples that differ in exactly one component (other key, other context, hash_type field set to every other value incl. 0 and out-of-enum, other data incl. the digest itself / one flipped bit / prefix / extension) and in several; arbitrary signature byte strings (0,1,63,64,65 bytes, every single byte flipped); hostile signatures made by the reference signer for unsupported hash types; Signature objects with unsupported types / empty sig / unparsable or foreign embedded keys through Validate, one defect at a time AND as the full cross product {supported 1..3, 0, out-of-enum values} x {valid, empty, nil, arbitrary non-empty sig_data} x {no key, signer's key, another valid key, every malformed key encoding}: each rejection clause must fire whatever the other two fields look like. Oracle: VerifyWithPublic == (true,nil) <=> presented tuple == creation tuple, cross-checked by an independent verification of the documented sign body with crypto/ed25519 (a verdict needs both opinions); NewSignature output must be byte-identical to the reference signer's (Ed25519 is deterministic); nothing verifies with hash type 0 / out-of-enum or empty sig_data; Validate rejects out-of-enum hash types, empty sig_data and embedded keys the reference key decoder calls invalid. Non-trivial = the creation succeeded and the same-tuple presentation verified; distinct = distinct (creation tuple, presented tuple / object)")
 	r.Assume("crypto/ed25519 is the trusted primitive; Validate() accepting hash_type 0 is deliberately not flagged (DESIGN 8): only 'nothing verifies with type 0' is demanded")
 	rng := r.Rand("c02")
 	pool := g.KeyPool(rng, r.N(10, 64))
@@ -460,6 +460,121 @@ func TestCheck(t *testing.T) {
 							r.Violation("VerifyWithPublic/panic/nil-object", "panicked: "+o.pd, tp.sig())
 						} else if o.ok {
 							r.Violation("VerifyWithPublic/ok-with-unsupported-type-or-empty-sig/nil-object", "nil signature object verified", tp.sig())
+						}
+					}
+				}
+				// (D2) full cross product of the three Validate clauses: every hash type
+				// shape x every sig_data shape x every embedded-key shape. A rejection
+				// clause must fire whatever the other two fields look like (a defect in
+				// one field must not be masked by a well-formed or malformed other field).
+				if ti%8 != 3 {
+					continue
+				}
+				other := pool[(tp.k.Idx+1)%len(pool)]
+				type fshape struct {
+					class string
+					bad   bool // the property's rejection clause applies to this field value
+				}
+				type tshape struct {
+					fshape
+					v int32
+				}
+				type bshape struct {
+					fshape
+					name string
+					b    []byte
+				}
+				var tshapes []tshape
+				for _, v := range []int32{1, 2, 3} {
+					tshapes = append(tshapes, tshape{fshape{"supported", false}, v})
+				}
+				tshapes = append(tshapes, tshape{fshape{"zero", false}, 0}) // type 0: not demanded (DESIGN 8)
+				for _, bt := range append(append([]int32(nil), badTypes...), 99, 1<<20, 9, 32, 255, 256, -100) {
+					if bt != 0 {
+						tshapes = append(tshapes, tshape{fshape{"out-of-enum", true}, bt})
+					}
+				}
+				sshapes := []bshape{
+					{fshape{"valid", false}, "valid", s.GetSigData()},
+					{fshape{"empty", true}, "empty", []byte{}},
+					{fshape{"empty", true}, "nil", nil},
+					{fshape{"non-empty-arbitrary", false}, "1-byte", []byte{0}},
+					{fshape{"non-empty-arbitrary", false}, "64-random", g.RandBytes(rng, 64)},
+				}
+				kshapes := []bshape{
+					{fshape{"no-key", false}, "none", nil},
+					{fshape{"own-key", false}, "own", keyProto},
+					{fshape{"other-key", false}, "other", g.MarshalKeyProto(g.KeyTypeEd25519, other.Pub)},
+				}
+				for name, kb := range badKeys {
+					if len(kb) == 0 {
+						continue
+					}
+					_, st := g.ParseEd25519PubProto(kb)
+					cl := "key-" + name
+					if strings.HasPrefix(name, "mutated") {
+						cl = "key-mutated"
+					}
+					switch st {
+					case g.Invalid:
+						kshapes = append(kshapes, bshape{fshape{"unparsable/" + cl, true}, name, kb})
+					case g.Valid:
+						kshapes = append(kshapes, bshape{fshape{"parsable/" + cl, false}, name, kb})
+					default:
+						kshapes = append(kshapes, bshape{fshape{"undecided/" + cl, false}, name, kb})
+					}
+				}
+				for _, ts := range tshapes {
+					for _, ss := range sshapes {
+						for _, ks := range kshapes {
+							ob := &peer.Signature{HashType: hash.HashType(ts.v), SigData: ss.b, PubKey: ks.b}
+							var verr error
+							pn, pd := vf.Try(func() { verr = ob.Validate() })
+							combo := fmt.Sprintf("type=%s+sig=%s+key=%s", ts.class, ss.class, ks.class)
+							r.Case(fmt.Sprintf("validate-x|%s|h%d|%s|%x", tp.sig(), ts.v, ss.name, ks.b), true)
+							r.Count("validate_cross_calls", 1)
+							r.Distinct("validate_cross_combos", fmt.Sprintf("type=%s+sig=%s+key=%s", ts.class, ss.class, strings.SplitN(ks.class, "/", 2)[0]))
+							w := func() map[string]any {
+								return map[string]any{"combo": combo, "hash_type": ts.v, "sig_shape": ss.name, "sig_data": vf.Hex(ss.b), "key_shape": ks.name, "pub_key": vf.Hex(ks.b), "err": fmt.Sprint(verr)}
+							}
+							if pn {
+								r.Violation("Signature.Validate/panic/cross/"+combo, "panicked: "+pd, w())
+								continue
+							}
+							mustReject := ts.bad || ss.bad || ks.bad
+							if mustReject {
+								r.Count("validate_cross_must_reject", 1)
+							}
+							if mustReject && verr == nil {
+								var why []string
+								if ts.bad {
+									why = append(why, "an out-of-enum hash type")
+								}
+								if ss.bad {
+									why = append(why, "empty sig_data")
+								}
+								if ks.bad {
+									why = append(why, "an unparsable embedded public key")
+								}
+								r.Violation("Signature.Validate/accepts/cross/"+combo, "Validate accepted a signature object with "+strings.Join(why, " and "), w())
+							}
+							if verr != nil {
+								r.Count("validate_cross_rejected", 1)
+							} else {
+								r.Count("validate_cross_accepted", 1)
+							}
+							// honest shape: supported type, the real signature, no key or the signer's key
+							if !mustReject && ts.class == "supported" && ss.name == "valid" && (ks.name == "none" || ks.name == "own") && verr != nil {
+								r.Violation("Signature.Validate/rejects-honest/cross/"+combo, "rejects a well-formed signature object: "+verr.Error(), w())
+							}
+							// whatever Validate says, nothing may verify with an unsupported type or empty sig
+							if ts.bad || ss.bad || ts.v == 0 {
+								if o := verify(ob, tp.k.PubK, tp.ctx, tp.data); o.panicked {
+									r.Violation("VerifyWithPublic/panic/cross/"+combo, "panicked: "+o.pd, w())
+								} else if o.ok {
+									r.Violation("VerifyWithPublic/ok-with-unsupported-type-or-empty-sig/cross/"+combo, "ok=true for an unsupported hash type or empty sig_data", w())
+								}
+							}
 						}
 					}
 				}
